@@ -14,6 +14,9 @@ TEXT = {
  "C06": "Proof (Coq) that decoding any byte string never panics, that every receive-channel operation on arbitrary (hostile) slices and messages keeps the memory-accounting invariant (accounted = buffered + reserved, within the maximum) and never panics, that a packet can only disconnect with one of three reasons, and that processing a packet for one client leaves every other connection of a server untouched.",
  "C08": "Proof (Coq) that the pending-ack ranges denote only sequence numbers that were added (never acknowledges what was not received), stay well formed, and that trimming by acked_largest removes exactly the numbers up to the bound. The end-to-end statement (release implies delivery) is checked by the monitor on the implementation; the two-endpoint theorem is open: partial.",
  "C09": "Proof (Coq) of exact memory accounting of the receive channels under arbitrary input (never above the maximum, no underflow), of full return after drain under any honest schedule (drained_is_empty, for both reliable modes), and of the 3 s discard of stale unreliable reassemblies releasing exactly their reservations. Send-side accounting theorems are being added. One documented finding (reservation rounding) is excluded by class.",
+ "C10": "Proof (Coq) of the connection-table invariant for every sequence of server calls and arbitrary datagrams (table_inv: connected ids pairwise distinct, connected addresses pairwise distinct, pending and connected addresses disjoint), of the bound (slots = max_clients while the limit is not lowered, so at most max_clients connected), that a ClientConnected names an id and address that were not connected and a ClientDisconnected a connected id with its address (events_matched), that lookups by id/address return the unique entry, and that a full server never connects anyone nor touches existing slots.",
+ "C18": "Proof (Coq) of the server-side building blocks: a connected client silent for longer than its token's timeout is disconnected by update_client and one that is not is kept; half-open entries vanish exactly when their token expires; a valid response for a pending client connects it whenever a slot is free. The client-side retry/fail-over/time-out lemmas and the request step are being added (NClientP, NAuthP); the closed statement (connected within a bounded number of good rounds) is checked by the monitor on the implementation: partial.",
+ "C19": "Proof (Coq) that for every server state and every datagram from an address that is not connected, process_packet returns nothing, or exactly one datagram to that same address that is strictly shorter than the datagram received (no_amplification), for all byte strings.",
  "C11": "Proof (Coq) of non-interference: what any server call does to connection id is a function of that connection's own state (server_frame, lifted to call sequences), broadcast performs exactly one send_message on every present connection (minus the excluded one) and nothing else, received messages are attributed to the connection they were processed on.",
  "C12": "Proof (Coq) that a disconnected connection keeps its first reason for every later call sequence and emits/accepts/yields nothing, that server events alternate Connected/Disconnected per id for every call sequence, and that removal reports the connection's first reason (Transport / DisconnectedByClient defaults).",
  "C13": "Proof (Coq) of the closed-form serialized length of every packet kind, that serialization of well-formed packets fails only for lack of buffer, and that at most MAX_ACK_RANGES ranges are kept (so an ack packet is at most 1 + 4*8 + 16*63 bytes). The bound for the packing loops and the netcode datagram bound are being added; the monitor checks every emitted length.",
